@@ -1004,6 +1004,18 @@ func genFunctionWrapper(n *node) func(*frame) reflect.Value {
 			return v
 		}
 
+		// The receiver of a method value is evaluated when the method value is; a value
+		// receiver is copied then (a pointer receiver keeps designating the variable).
+		var recv reflect.Value
+		if rcvr != nil {
+			recv = rcvr(f)
+			if def.types[numRet].Kind() != reflect.Ptr {
+				src := recv
+				recv = reflect.New(src.Type()).Elem()
+				recv.Set(src)
+			}
+		}
+
 		return reflect.MakeFunc(funcType, func(in []reflect.Value) []reflect.Value {
 			// Allocate and init local frame. All values to be settable and addressable.
 			fr := newFrame(f, len(def.types), f.runid())
@@ -1016,7 +1028,7 @@ func genFunctionWrapper(n *node) func(*frame) reflect.Value {
 				d = d[numRet:]
 			} else {
 				// Copy method receiver as first argument.
-				src, dest := rcvr(f), d[numRet]
+				src, dest := recv, d[numRet]
 				sk, dk := src.Kind(), dest.Kind()
 				for {
 					vs, ok := src.Interface().(valueInterface)
